@@ -43,7 +43,7 @@ pub fn n_runs(m: Mode, tier: &str) -> u64 {
 pub fn gen(m: Mode, tier: &str, seed: u64, idx: u64, base: u64) -> Spec {
     let _ = tier;
     let mut rng = Rng::new(seed);
-    let world = pick_world(&mut rng, base, idx, 45, wgen::Profile::Any);
+    let world = if rng.coin(12) { wgen::gen_zoo(&mut rng) } else { pick_world(&mut rng, base, idx, 55, wgen::Profile::Any) };
     let goals = usable_goals(&world, &["slg", "rec"]);
     let slots = vec![SlotCfg::slg(), SlotCfg::rec()];
     let mut db = DbCfg::default();
@@ -53,7 +53,19 @@ pub fn gen(m: Mode, tier: &str, seed: u64, idx: u64, base: u64) -> Spec {
         _ => db.superset = true,
     }
     let mut ops = vec![];
-    if !goals.is_empty() {
+    if !goals.is_empty() && goals.len() <= 14 && world.source == "wgen" && rng.coin(45) {
+        // small generated worlds: every goal to both solvers, twice, in PRNG order (cycle members asked after the head ...)
+        for _ in 0..2 {
+            let mut order = goals.clone();
+            rng.shuffle(&mut order);
+            for goal in order {
+                let sl = if rng.coin(50) { [0usize, 1] } else { [1, 0] };
+                for &slot in &sl {
+                    ops.push(Op { kind: OpKind::Solve, slot, goal, fault: None });
+                }
+            }
+        }
+    } else if !goals.is_empty() {
         for _ in 0..rng.range(4, 24) {
             let goal = *rng.pick(&goals);
             let k = rng.below(100);
@@ -83,6 +95,29 @@ pub fn gen(m: Mode, tier: &str, seed: u64, idx: u64, base: u64) -> Spec {
         }
     }
     Spec { check: if m == Mode::C04 { "C04" } else { "C28" }.into(), world, slots, ops, db, budget: 300_000, points: None, scheds: None, cap: 0, params: Default::default() }
+}
+
+/// what does the reference model say about the goal (fragment worlds only)? Used to tell WHICH solver is wrong.
+fn ref_tag(frag: &Option<(wgen::Prog, Vec<Result<wgen::Goal, String>>)>, gi: usize) -> &'static str {
+    if let Some((prog, goals)) = frag {
+        if let Some(Ok(ast)) = goals.get(gi) {
+            if !ast.has_exists() {
+                return match crate::reference::eval_closed(prog, ast, 40_000).0 {
+                    crate::reference::Tv::T => "+ref-true",
+                    crate::reference::Tv::F => "+ref-false",
+                    crate::reference::Tv::U => "",
+                };
+            } else if let Some(info) = crate::reference::eval_exists(prog, ast, 2, 5_000, 900) {
+                if !info.sols.is_empty() {
+                    return "+ref-true";
+                }
+                if !info.unk {
+                    return "+ref-false";
+                }
+            }
+        }
+    }
+    ""
 }
 
 /// which way a contradiction between the SLG answer `a` and the recursive answer `b` goes
@@ -211,6 +246,10 @@ pub fn exec(m: Mode, spec: &Spec, r: &mut RunResult) {
                                         }
                                     }
                                 }
+                                sig.push_str(ref_tag(&frag, op.goal));
+                                if hyp_mentions_unknown(&spec.world.goals[op.goal]) {
+                                    sig.push_str("+unknown-in-hyp");
+                                }
                                 r.violate(
                                     "solvers-contradict",
                                     format!("goal `{}` (after op #{}): SLG answers `{}`, recursive solver answers `{}`: {}", spec.world.goals[op.goal], oi, fmt_sol(&a), fmt_sol(&b), why),
@@ -245,6 +284,10 @@ pub fn exec(m: Mode, spec: &Spec, r: &mut RunResult) {
                                     sig.push_str("+co-reach");
                                 }
                             }
+                        }
+                        sig.push_str(ref_tag(&frag, gi));
+                        if hyp_mentions_unknown(&spec.world.goals[gi]) {
+                            sig.push_str("+unknown-in-hyp");
                         }
                         r.violate("solvers-contradict", format!("goal `{}` (fresh solvers): SLG answers `{}`, recursive solver answers `{}`: {}", spec.world.goals[gi], fmt_sol(a), fmt_sol(b), why), Some(&sig));
                     }
